@@ -37,6 +37,8 @@ def opOfJson (j : Json) : R Op := do
   | "peek" => return .peekArea (← asNat (← idx j 1))
   | "name" => return .byName (← asNat (← idx j 1))
   | "within_regions" => return .withinRegions
+  | "has" => return .hasCds (← asNat (← idx j 1)) (← asNat (← idx j 2))
+  | "index" => return .indexOf (← asNat (← idx j 1)) (← asNat (← idx j 2))
   | t => throw s!"bad op {t}"
 
 def ids (gs : List Gene) : Json := toJson (gs.map (·.id))
@@ -146,13 +148,21 @@ def checkOut (l : Live) (op : Op) (out : List (List Nat)) : Bool :=
       && (!ownSections l d || [sortNats pre, sortNats cross, sortNats post] == specSecLists l.genes d)
   | .byName gid, [[i, s, e]] =>
     i == gid && l.genes.any fun g => g.id == gid && g.loc.start.toNat == s && g.loc.end.toNat == e
+  | .hasCds aid gid, [[b]] =>
+    match (liveNodes l).find? (·.id == aid) with
+    | none => b ≤ 1
+    | some d => b == (if (specChildren l.genes d).contains gid then 1 else 0)
+  | .indexOf aid gid, [[i]] =>
+    match (liveNodes l).find? (·.id == aid) with
+    | none => true
+    | some d => (specChildren l.genes d).contains gid && decide (i < (specChildren l.genes d).length)
   | .withinRegions, [got] =>
     got == sortNats ((l.genes.filter fun g => l.regions.any fun a => specContained g.loc a.loc).map (·.id))
   | _, _ => false
 where distinctIds (l : List Nat) : Bool := (sortNats l).length == l.length
 
 def isPeek : Op → Bool
-  | .peekCds | .peekArea _ | .byName _ | .withinRegions => true
+  | .peekCds | .peekArea _ | .byName _ | .withinRegions | .hasCds _ _ | .indexOf _ _ => true
   | _ => false
 
 /-- spec verdicts for the implementation's log, one per observing call, in order -/
